@@ -117,9 +117,10 @@ pub fn record(args: &Args) {
             "c03" => {
                 let ks: &[usize] = if thorough { &[1, 4] } else { &[1] };
                 for preset in PRESETS {
-                    for &budget in budgets {
-                        for &k in ks {
-                            if run_event(&mut out, t, "Full", preset, k, budget, 0.0, seed, false, false).is_some() {
+                    for &k in ks {
+                        for &budget in budgets {
+                            // one series per (preset, threads): `first` / `last` mark budgets 25 and 2500 for the trend
+                            if run_event(&mut out, t, "Full", preset, k, budget, 0.0, seed, budget == 25, budget == 2500).is_some() {
                                 runs += 1;
                             }
                         }
